@@ -16,7 +16,7 @@ type c06 struct{ base }
 
 func init() {
 	core.Register(c06{base{id: "C06", level: "exploration", quickB: 16, thoroughB: 32,
-		rule: "histories over {Parse ok/err/0/2 statements, Bind known/unknown/with an unsupported format code, Describe S/P, Execute (ok, fail before/after rows, panic, unknown portal), Close S/P, Flush, Sync, simple Query, unknown-type, oversized} with names from {\"\",a,b}; every history is followed by Sync + probe Query. quick: exhaustive over all histories of length <= 4 from a 14-symbol alphabet + random length <= 12; thorough: random length <= 30. Each history runs in lock-step (reply must be complete when the server blocks for input = promptness) and again pipelined in one segment (bytes and callback trace must be identical). Non-trivial = contains an error or an unknown name or a message while skipping; distinct = distinct message-kind/outcome sequence.",
+		rule: "histories over {Parse ok/err/0/2 statements, Bind known/unknown/with an unsupported format code, Describe S/P, Execute (ok, fail before/after rows, panic, unknown portal), Close S/P, Flush, Sync, simple Query, unknown-type, oversized} with names from {\"\",a,b}; every history is followed by Sync + probe Query, or (every fifth length) by Terminate in whatever state it left. quick: exhaustive over all histories of length <= 4 from a 14-symbol alphabet + random length <= 12; thorough: random length <= 30. Each history runs in lock-step (reply must be complete when the server blocks for input = promptness) and again pipelined in one segment (bytes and callback trace must be identical). Non-trivial = contains an error or an unknown name or a message while skipping; distinct = distinct message-kind/outcome sequence.",
 		need:        []string{"messages_stepped", "extended_errors", "messages_discarded_while_skipping", "pipelined_runs"},
 		assumptions: append([]string{"after an unknown-type or oversized non-Query message inside a batch the reply (nothing / E / E Z) and the skipping state are left open; whether portals survive Sync, whether Close(statement) cascades to its portals and whether a simple Query destroys the unnamed statement are left open (all accepted consistently)"}, commonAssumptions...)}})
 }
@@ -172,8 +172,14 @@ func (ch c06) Run(c *core.Ctx) {
 		return []xMsg{{K: "sync"}, {K: "query", Query: "probe " + pfx, Prog: xProg("probe"+pfx, 3)}}
 	}
 	idx := 0
+	nrun := 0
 	runOne := func(h []xMsg, pfx string) {
-		h = append(h, tail(pfx)...)
+		nrun++
+		if nrun%5 == 4 {
+			h = append(h, xMsg{K: "terminate"}) // Terminate straight after the history, whatever state it left
+		} else {
+			h = append(h, tail(pfx)...)
+		}
 		ok, run := judgeHistory(c, env, h, map[string]any{"history": histString(h)}, "C06")
 		c.Eval(xShape(h), xNontrivial(h))
 		if idx < 2*nb {
@@ -197,6 +203,9 @@ func (ch c06) Run(c *core.Ctx) {
 		}
 		evStart := len(cl.C.Events())
 		out, _ := cl.Step(all)
+		if h[len(h)-1].K == "terminate" {
+			cl.C.WaitClosed()
+		}
 		if hangCheck(c, cl, nil) {
 			return
 		}
